@@ -1,0 +1,256 @@
+//go:build verif
+
+// Contracts for package aml, read as text by /verif/engine (govc); no code.
+
+package aml
+
+//@ mode bv
+
+// the AML byte stream is raw memory (a slice manufactured from the table's address)
+//@ rawfield amlStreamReader.data
+
+// ---- stream reader (C12): the window never leaves the table -------------------------------
+//@ pred wfD(r *amlStreamReader) = r != nil && len(r.data) >= 0 && len(r.data) <= 0xffffffff && dataptr(r.data) <= 0xffffffff00000000
+//@ pred wfR(r *amlStreamReader) = wfD(r) && r.offset <= uint32(len(r.data)) && r.pkgEnd <= uint32(len(r.data))
+//@ pred sameStream(r *amlStreamReader) = r.data == old(r.data)
+// a byte slice lies inside the table's bytes (or is empty)
+//@ pred inTable(r *amlStreamReader, s []byte) = len(s) == 0 || (len(s) > 0 && dataptr(s) >= dataptr(r.data) && dataptr(s) - dataptr(r.data) <= uintptr(len(r.data)) && uintptr(len(s)) <= uintptr(len(r.data)) - (dataptr(s) - dataptr(r.data)))
+
+//@ func (r *amlStreamReader) EOF() (eof bool)
+//@   property C12
+//@   requires r != nil
+//@   ensures eof <==> r.offset >= r.pkgEnd
+
+//@ func (r *amlStreamReader) Offset() (off uint32)
+//@   property C12
+//@   requires r != nil
+//@   ensures off == r.offset
+
+//@ func (r *amlStreamReader) SetPkgEnd(pkgEnd uint32) (err error)
+//@   property C12
+//@   requires wfD(r)
+//@   modifies r.pkgEnd
+//@   ensures wfD(r) && sameStream(r) && r.offset == old(r.offset) && (old(wfR(r)) ==> wfR(r))
+//@   ensures isnil(err) <==> pkgEnd <= uint32(len(r.data))
+//@   ensures isnil(err) ==> r.pkgEnd == pkgEnd
+//@   ensures !isnil(err) ==> r.pkgEnd == old(r.pkgEnd)
+
+//@ func (r *amlStreamReader) SetOffset(off uint32)
+//@   property C12
+//@   requires wfD(r)
+//@   modifies r.offset
+//@   ensures wfD(r) && sameStream(r) && r.pkgEnd == old(r.pkgEnd) && r.offset <= uint32(len(r.data)) && (old(r.pkgEnd) <= uint32(len(r.data)) ==> wfR(r))
+//@   ensures r.offset == ite(off > uint32(len(r.data)), uint32(len(r.data)), off)
+
+//@ func (r *amlStreamReader) ReadByte() (b byte, err error)
+//@   property C12 C11
+//@   requires wfR(r)
+//@   modifies r.offset
+//@   ensures wfR(r) && sameStream(r) && r.pkgEnd == old(r.pkgEnd)
+//@   ensures isnil(err) <==> old(r.offset) < r.pkgEnd
+//@   ensures isnil(err) ==> r.offset == old(r.offset) + 1 && b == mem8(dataptr(r.data) + uintptr(old(r.offset)))
+//@   ensures !isnil(err) ==> r.offset == old(r.offset) && b == 0
+
+//@ func (r *amlStreamReader) PeekByte() (b byte, err error)
+//@   property C12 C11
+//@   requires wfR(r)
+//@   ensures isnil(err) <==> r.offset < r.pkgEnd
+//@   ensures isnil(err) ==> b == mem8(dataptr(r.data) + uintptr(r.offset))
+
+//@ func (r *amlStreamReader) LastByte() (b byte, err error)
+//@   property C12
+//@   requires wfR(r)
+//@   ensures isnil(err) <==> r.offset != 0
+//@   ensures isnil(err) ==> b == mem8(dataptr(r.data) + uintptr(r.offset - 1))
+
+//@ func (r *amlStreamReader) UnreadByte() (err error)
+//@   property C12
+//@   requires wfR(r)
+//@   modifies r.offset
+//@   ensures wfR(r) && sameStream(r) && r.pkgEnd == old(r.pkgEnd)
+//@   ensures isnil(err) <==> old(r.offset) != 0
+//@   ensures r.offset == ite(old(r.offset) == 0, 0, old(r.offset) - 1)
+
+//@ func (r *amlStreamReader) DataPtr() (p uintptr)
+//@   property C12
+//@   requires wfR(r)
+//@   ensures p == ite(r.offset >= r.pkgEnd, 0, dataptr(r.data) + uintptr(r.offset))
+
+//@ func (r *amlStreamReader) Init(dataAddr uintptr, dataLen uint32, initialOffset uint32)
+//@   property C12
+//@   requires r != nil && dataAddr <= 0xffffffff00000000
+//@   modifies r.data, r.pkgEnd, r.offset
+//@   ensures wfR(r) && dataptr(r.data) == dataAddr && len(r.data) == int(dataLen) && r.pkgEnd == dataLen && r.offset == ite(initialOffset > dataLen, dataLen, initialOffset)
+
+// ---- lexical layer of the parser (C11: encoded values; C12: window and containment) -------------
+//@ spec rd(p *Parser) *amlStreamReader = &p.r
+//@ spec byteAt(p *Parser, o uint32) uint8 = mem8(dataptr(p.r.data) + uintptr(o))
+
+// PkgLength (ACPI 6.2, 20.2.4): the two top bits of the lead byte give the number n of following
+// bytes; n == 0: the length is the lead byte's low 6 bits; otherwise the low 4 bits of the lead
+// byte are the least significant nibble and the following bytes the next more significant bytes
+//@ func (p *Parser) parsePkgLength() (pkgLen uint32, res parseResult)
+//@   property C11 C12
+//@   requires p != nil && wfR(rd(p))
+//@   modifies p.r.offset
+//@   ensures wfR(rd(p)) && sameStream(rd(p)) && p.r.pkgEnd == old(p.r.pkgEnd)
+//@   ensures res == parseResultOk || res == parseResultFailed
+//@   ensures ok: res == parseResultOk <==> old(p.r.offset) < p.r.pkgEnd && uint64(old(p.r.offset)) + uint64(byteAt(p, old(p.r.offset)) >> 6) < uint64(p.r.pkgEnd)
+//@   ensures failed: res != parseResultOk ==> p.r.offset == old(p.r.offset) && pkgLen == 0
+//@   ensures consumed: res == parseResultOk ==> p.r.offset == old(p.r.offset) + 1 + uint32(byteAt(p, old(p.r.offset)) >> 6)
+//@   ensures value: res == parseResultOk ==> pkgLen == ite(byteAt(p, old(p.r.offset)) >> 6 == 0, uint32(byteAt(p, old(p.r.offset)) & 0x3f), uint32(byteAt(p, old(p.r.offset)) & 0xf) | uint32(byteAt(p, old(p.r.offset)+1)) << 4 | ite(byteAt(p, old(p.r.offset)) >> 6 >= 2, uint32(byteAt(p, old(p.r.offset)+2)) << 12, 0) | ite(byteAt(p, old(p.r.offset)) >> 6 == 3, uint32(byteAt(p, old(p.r.offset)+3)) << 20, 0))
+
+// little-endian constant of numBytes bytes
+//@ func (p *Parser) parseNumConstant(numBytes uint8) (val uint64, res parseResult)
+//@   property C11 C12
+//@   requires p != nil && wfR(rd(p)) && numBytes <= 8
+//@   modifies p.r.offset
+//@   ensures wfR(rd(p)) && sameStream(rd(p)) && p.r.pkgEnd == old(p.r.pkgEnd)
+//@   ensures ok: res == parseResultOk <==> numBytes == 0 || uint64(old(p.r.offset)) + uint64(numBytes) <= uint64(p.r.pkgEnd)
+//@   ensures consumed: res == parseResultOk ==> p.r.offset == old(p.r.offset) + uint32(numBytes)
+//@   ensures value: res == parseResultOk ==> forall(c, uint8, c < 8 ==> uint8(val >> (8 * uint64(c))) == ite(c < numBytes, byteAt(p, old(p.r.offset) + uint32(c)), 0))
+//@   loop 1 (c < numBytes) invariant c <= numBytes && wfR(rd(p)) && sameStream(rd(p)) && p.r.pkgEnd == old(p.r.pkgEnd) && p.r.offset == old(p.r.offset) + uint32(c) && (c == 0 || uint64(old(p.r.offset)) + uint64(c) <= uint64(p.r.pkgEnd)) && forall(k, uint8, k < 8 ==> uint8(res >> (8 * uint64(k))) == ite(k < c, byteAt(p, old(p.r.offset) + uint32(k)), 0))
+
+// String: ASCII bytes 0x01..0x7f up to a NUL; the returned slice is the bytes before the NUL and
+// lies inside the table
+//@ func (p *Parser) parseString() (s []byte, res parseResult)
+//@   property C11 C12
+//@   requires p != nil && wfR(rd(p))
+//@   modifies p.r.offset
+//@   ensures wfR(rd(p)) && sameStream(rd(p)) && p.r.pkgEnd == old(p.r.pkgEnd)
+//@   ensures contained: inTable(rd(p), s)
+//@   ensures start: len(s) > 0 ==> dataptr(s) == dataptr(p.r.data) + uintptr(old(p.r.offset))
+//@   ensures okstr: res == parseResultOk ==> old(p.r.offset) < p.r.pkgEnd && p.r.offset == old(p.r.offset) + uint32(len(s)) + 1 && byteAt(p, old(p.r.offset) + uint32(len(s))) == 0 && forall(k, uint32, k < uint32(len(s)) ==> byteAt(p, old(p.r.offset) + k) >= 1 && byteAt(p, old(p.r.offset) + k) <= 0x7f)
+//@   loop 1 (for) invariant wfR(rd(p)) && sameStream(rd(p)) && p.r.pkgEnd == old(p.r.pkgEnd) && str.Len >= 0 && str.Len <= 0xffffffff && res == parseResultOk && uint64(p.r.offset) == uint64(old(p.r.offset)) + uint64(str.Len) && (str.Len > 0 ==> p.r.offset <= p.r.pkgEnd) && str.Data == ite(old(p.r.offset) >= p.r.pkgEnd, 0, dataptr(p.r.data) + uintptr(old(p.r.offset))) && forall(k, uint32, k < uint32(str.Len) ==> byteAt(p, old(p.r.offset) + k) >= 1 && byteAt(p, old(p.r.offset) + k) <= 0x7f)
+
+// opcodes: one byte, or 0x5b followed by a second byte (reported as 0xff + second byte); an
+// opcode the table does not know rewinds the stream; peek always rewinds
+//@ func (p *Parser) nextOpcode() (op uint16, res parseResult)
+//@   property C11 C12
+//@   requires p != nil && wfR(rd(p))
+//@   modifies p.r.offset
+//@   ensures wfR(rd(p)) && sameStream(rd(p)) && p.r.pkgEnd == old(p.r.pkgEnd)
+//@   ensures failed: res != parseResultOk ==> op == 0xffff && p.r.offset == old(p.r.offset)
+//@   ensures one: res == parseResultOk && byteAt(p, old(p.r.offset)) != 0x5b ==> op == uint16(byteAt(p, old(p.r.offset))) && p.r.offset == old(p.r.offset) + 1
+//@   ensures two: res == parseResultOk && byteAt(p, old(p.r.offset)) == 0x5b ==> op == 0xff + uint16(byteAt(p, old(p.r.offset) + 1)) && p.r.offset == old(p.r.offset) + 2
+//@   ensures known: res == parseResultOk ==> old(p.r.offset) < p.r.pkgEnd
+
+//@ func (p *Parser) peekNextOpcode() (op uint16, res parseResult)
+//@   property C11 C12
+//@   requires p != nil && wfR(rd(p))
+//@   modifies p.r.offset
+//@   ensures wfR(rd(p)) && sameStream(rd(p)) && p.r.pkgEnd == old(p.r.pkgEnd) && p.r.offset == old(p.r.offset)
+//@   ensures res != parseResultOk ==> op == 0xffff
+//@   ensures res == parseResultOk ==> op == ite(byteAt(p, p.r.offset) != 0x5b, uint16(byteAt(p, p.r.offset)), 0xff + uint16(byteAt(p, p.r.offset + 1)))
+
+// NameString: root/parent prefixes, then NullName | NameSeg | DualNamePath | MultiNamePath. The
+// returned slice starts at the first prefix byte, ends at the last segment byte, lies in the table
+//@ func (p *Parser) parseNameString() (s []byte, res parseResult)
+//@   property C11 C12
+//@   requires p != nil && wfR(rd(p)) && len(p.r.data) <= 0x7fffffff
+//@   modifies p.r.offset
+//@   ensures wfR(rd(p)) && sameStream(rd(p)) && p.r.pkgEnd == old(p.r.pkgEnd)
+//@   ensures contained: inTable(rd(p), s)
+//@   ensures failed: res != parseResultOk ==> len(s) == 0
+//@   ensures okname: res == parseResultOk ==> p.r.offset <= p.r.pkgEnd && p.r.offset > old(p.r.offset) && (len(s) > 0 ==> dataptr(s) == dataptr(p.r.data) + uintptr(old(p.r.offset)) && uint64(old(p.r.offset)) + uint64(len(s)) == uint64(p.r.offset))
+//@   loop 1 (for) invariant wfR(rd(p)) && sameStream(rd(p)) && p.r.pkgEnd == old(p.r.pkgEnd) && p.r.offset >= old(p.r.offset) && startOffset == old(p.r.offset) && res == parseResultOk && str.Len == 0 && str.Data == ite(old(p.r.offset) >= p.r.pkgEnd, 0, dataptr(p.r.data) + uintptr(old(p.r.offset))) && (p.r.offset > old(p.r.offset) ==> p.r.offset <= p.r.pkgEnd)
+
+// a byte list of dataLen bytes starting at the read position becomes the object's value; the
+// caller must not ask for more bytes than the current window holds
+//@ func (p *Parser) parseByteList(obj *Object, dataLen uint32)
+//@   property C12
+//@   requires p != nil && obj != nil && wfR(rd(p)) && p.r.offset <= p.r.pkgEnd && dataLen <= p.r.pkgEnd - p.r.offset
+//@   modifies p.r.offset, obj.opcode, obj.infoIndex, obj.value
+//@   ensures wfR(rd(p)) && sameStream(rd(p)) && p.r.pkgEnd == old(p.r.pkgEnd) && p.r.offset == old(p.r.offset) + dataLen
+//@   ensures contained: typeis(obj.value, []byte) && inTable(rd(p), unbox(obj.value, []byte)) && len(unbox(obj.value, []byte)) == int(dataLen) && (dataLen > 0 ==> dataptr(unbox(obj.value, []byte)) == dataptr(p.r.data) + uintptr(old(p.r.offset)))
+
+// ---- object tree (C13): index-linked child lists ------------------------------------------------
+//@ spec ob(t *ObjectTree, i uint32) *Object = t.objPool[i]
+//@ pred inPoolIdx(t *ObjectTree, i uint32) = uint64(i) < uint64(len(t.objPool))
+//@ pred live(t *ObjectTree, i uint32) = inPoolIdx(t, i) && ob(t, i).opcode != pOpIntFreedObject
+// link consistency of pool slot i
+//@ pred wfSlot(t *ObjectTree, i uint32) = ob(t, i) != nil && ob(t, i).index == i && (ob(t, i).opcode != pOpIntFreedObject ==> wfLive(t, i)) && (ob(t, i).opcode == pOpIntFreedObject ==> ob(t, i).nextSiblingIndex == InvalidIndex || (inPoolIdx(t, ob(t, i).nextSiblingIndex) && !live(t, ob(t, i).nextSiblingIndex)))
+//@ pred wfLive(t *ObjectTree, i uint32) = ob(t, i).parentIndex != i && (ob(t, i).nextSiblingIndex != InvalidIndex ==> live(t, ob(t, i).nextSiblingIndex) && ob(t, ob(t, i).nextSiblingIndex).prevSiblingIndex == i && ob(t, ob(t, i).nextSiblingIndex).parentIndex == ob(t, i).parentIndex) && (ob(t, i).prevSiblingIndex != InvalidIndex ==> live(t, ob(t, i).prevSiblingIndex) && ob(t, ob(t, i).prevSiblingIndex).nextSiblingIndex == i && ob(t, ob(t, i).prevSiblingIndex).parentIndex == ob(t, i).parentIndex) && (ob(t, i).parentIndex != InvalidIndex ==> live(t, ob(t, i).parentIndex) && ((ob(t, i).prevSiblingIndex == InvalidIndex) <==> (ob(t, ob(t, i).parentIndex).firstArgIndex == i)) && ((ob(t, i).nextSiblingIndex == InvalidIndex) <==> (ob(t, ob(t, i).parentIndex).lastArgIndex == i))) && (ob(t, i).parentIndex == InvalidIndex ==> ob(t, i).prevSiblingIndex == InvalidIndex && ob(t, i).nextSiblingIndex == InvalidIndex) && ((ob(t, i).firstArgIndex == InvalidIndex) <==> (ob(t, i).lastArgIndex == InvalidIndex)) && (ob(t, i).firstArgIndex != InvalidIndex ==> live(t, ob(t, i).firstArgIndex) && ob(t, ob(t, i).firstArgIndex).parentIndex == i && ob(t, ob(t, i).firstArgIndex).prevSiblingIndex == InvalidIndex) && (ob(t, i).lastArgIndex != InvalidIndex ==> live(t, ob(t, i).lastArgIndex) && ob(t, ob(t, i).lastArgIndex).parentIndex == i && ob(t, ob(t, i).lastArgIndex).nextSiblingIndex == InvalidIndex)
+//@ pred poolShape(t *ObjectTree) = t != nil && len(t.objPool) >= 0 && len(t.objPool) < 0xffffffff && forall(i, uint32, inPoolIdx(t, i) ==> ob(t, i) != nil)
+//@ pred wfTree(t *ObjectTree) = t != nil && len(t.objPool) >= 0 && len(t.objPool) < 0xffffffff && forall(i, uint32, inPoolIdx(t, i) ==> wfSlot(t, i)) && (t.freeListHeadIndex != InvalidIndex ==> inPoolIdx(t, t.freeListHeadIndex) && !live(t, t.freeListHeadIndex))
+// obj is a live member of the pool
+//@ pred member(t *ObjectTree, o *Object) = o != nil && inPoolIdx(t, o.index) && ob(t, o.index) == o && o.opcode != pOpIntFreedObject
+
+//@ func (tree *ObjectTree) ObjectAt(index uint32) (o *Object)
+//@   property C13
+//@   requires poolShape(tree)
+//@   ensures o == nil <==> !live(tree, index)
+//@   ensures o != nil ==> o == ob(tree, index)
+
+// detach: arg must be a child of obj; afterwards arg has no parent and no siblings, its former
+// neighbours are linked to each other, obj's first/last child are updated
+//@ func (tree *ObjectTree) detach(obj *Object, arg *Object)
+//@   property C13
+//@   requires wfTree(tree) && member(tree, obj) && member(tree, arg) && arg.parentIndex == obj.index
+//@   modifies Object.firstArgIndex, Object.lastArgIndex, Object.prevSiblingIndex, Object.nextSiblingIndex, Object.parentIndex
+//@   ensures detached: arg.parentIndex == InvalidIndex && arg.prevSiblingIndex == InvalidIndex && arg.nextSiblingIndex == InvalidIndex
+//@   ensures relinked: old(arg.prevSiblingIndex) != arg.index && old(arg.nextSiblingIndex) != arg.index ==> ((old(arg.prevSiblingIndex) != InvalidIndex ==> ob(tree, old(arg.prevSiblingIndex)).nextSiblingIndex == old(arg.nextSiblingIndex)) && (old(arg.nextSiblingIndex) != InvalidIndex ==> ob(tree, old(arg.nextSiblingIndex)).prevSiblingIndex == old(arg.prevSiblingIndex)))
+//@   ensures ends: obj.firstArgIndex == ite(old(obj.firstArgIndex) == arg.index, old(arg.nextSiblingIndex), old(obj.firstArgIndex)) && obj.lastArgIndex == ite(old(obj.lastArgIndex) == arg.index, old(arg.prevSiblingIndex), old(obj.lastArgIndex))
+//@   ensures wf: wfTree(tree)
+//@   ensures frameEnds: forall(i, uint32, inPoolIdx(tree, i) && i != obj.index ==> ob(tree, i).firstArgIndex == old(ob(tree, i).firstArgIndex) && ob(tree, i).lastArgIndex == old(ob(tree, i).lastArgIndex))
+//@   ensures frameLinks: forall(i, uint32, inPoolIdx(tree, i) && i != arg.index ==> ob(tree, i).parentIndex == old(ob(tree, i).parentIndex) && (i != old(arg.prevSiblingIndex) ==> ob(tree, i).nextSiblingIndex == old(ob(tree, i).nextSiblingIndex)) && (i != old(arg.nextSiblingIndex) ==> ob(tree, i).prevSiblingIndex == old(ob(tree, i).prevSiblingIndex)))
+//@   at entry: inst obj.index, arg.index, arg.prevSiblingIndex, arg.nextSiblingIndex
+
+// append: arg (detached) becomes the last child of obj
+//@ func (tree *ObjectTree) append(obj *Object, arg *Object)
+//@   property C13
+//@   requires wfTree(tree) && member(tree, obj) && member(tree, arg) && arg.parentIndex == InvalidIndex && arg.prevSiblingIndex == InvalidIndex && arg.nextSiblingIndex == InvalidIndex && arg != obj
+//@   modifies Object.firstArgIndex, Object.lastArgIndex, Object.prevSiblingIndex, Object.nextSiblingIndex, Object.parentIndex
+//@   ensures last: arg.parentIndex == obj.index && obj.lastArgIndex == arg.index && arg.nextSiblingIndex == InvalidIndex && arg.prevSiblingIndex == old(obj.lastArgIndex) && obj.firstArgIndex == ite(old(obj.firstArgIndex) == InvalidIndex, arg.index, old(obj.firstArgIndex))
+//@   ensures wf: wfTree(tree)
+//@   at entry: inst obj.index, arg.index, obj.lastArgIndex
+
+// appendAfter: arg (detached) becomes the sibling right after nextTo, a child of obj
+//@ func (tree *ObjectTree) appendAfter(obj *Object, arg *Object, nextTo *Object)
+//@   property C13
+//@   requires wfTree(tree) && member(tree, obj) && member(tree, arg) && member(tree, nextTo) && nextTo.parentIndex == obj.index && arg.parentIndex == InvalidIndex && arg.prevSiblingIndex == InvalidIndex && arg.nextSiblingIndex == InvalidIndex && arg != obj && arg != nextTo
+//@   modifies Object.firstArgIndex, Object.lastArgIndex, Object.prevSiblingIndex, Object.nextSiblingIndex, Object.parentIndex
+//@   ensures after: arg.parentIndex == obj.index && arg.prevSiblingIndex == nextTo.index && nextTo.nextSiblingIndex == arg.index && arg.nextSiblingIndex == old(nextTo.nextSiblingIndex)
+//@   ensures succ: old(nextTo.nextSiblingIndex) != InvalidIndex ==> ob(tree, old(nextTo.nextSiblingIndex)).prevSiblingIndex == arg.index
+//@   ensures shape: poolShape(tree) && tree.objPool == old(tree.objPool) && forall(i, uint32, inPoolIdx(tree, i) ==> ob(tree, i).index == i && ob(tree, i).opcode == old(ob(tree, i).opcode))
+//@   at entry: inst obj.index, arg.index, nextTo.index, nextTo.nextSiblingIndex, obj.lastArgIndex
+
+// free: a childless object is detached, marked freed and pushed on the free list
+//@ func (tree *ObjectTree) free(obj *Object)
+//@   property C13
+//@   maypanic
+//@   requires wfTree(tree) && member(tree, obj)
+//@   requires nochild: forall(k, uint32, live(tree, k) ==> ob(tree, k).parentIndex != obj.index) || obj.firstArgIndex != InvalidIndex
+//@   modifies tree.freeListHeadIndex, Object.opcode, Object.firstArgIndex, Object.lastArgIndex, Object.prevSiblingIndex, Object.nextSiblingIndex, Object.parentIndex
+//@   ensures freed: obj.opcode == pOpIntFreedObject && tree.freeListHeadIndex == obj.index && obj.nextSiblingIndex == old(tree.freeListHeadIndex) && old(obj.firstArgIndex) == InvalidIndex
+//@   at entry: inst obj.index, obj.parentIndex, tree.freeListHeadIndex
+
+// newObject: a freed slot is reused before the pool grows; the object comes back detached
+//@ func (tree *ObjectTree) newObject(opcode uint16, tableHandle uint8) (o *Object)
+//@   property C13
+//@   requires wfTree(tree) && len(tree.objPool) < 0xfffffffe && opcode <= 0x1fe
+//@   modifies tree.objPool, tree.freeListHeadIndex, Object.opcode, Object.infoIndex, Object.tableHandle, Object.parentIndex, Object.prevSiblingIndex, Object.nextSiblingIndex, Object.firstArgIndex, Object.lastArgIndex, Object.value, Object.index, elems(*Object)
+//@   ensures reuse: old(tree.freeListHeadIndex) != InvalidIndex ==> o == old(ob(tree, tree.freeListHeadIndex)) && len(tree.objPool) == old(len(tree.objPool)) && tree.freeListHeadIndex == old(ob(tree, tree.freeListHeadIndex).nextSiblingIndex)
+//@   ensures grow: old(tree.freeListHeadIndex) == InvalidIndex ==> len(tree.objPool) == old(len(tree.objPool)) + 1 && o.index == uint32(old(len(tree.objPool))) && tree.freeListHeadIndex == InvalidIndex
+//@   ensures fresh: o != nil && o.opcode == opcode && o.tableHandle == tableHandle && o.parentIndex == InvalidIndex && o.prevSiblingIndex == InvalidIndex && o.nextSiblingIndex == InvalidIndex && o.firstArgIndex == InvalidIndex && o.lastArgIndex == InvalidIndex && isnil(o.value)
+
+// lookups never index out of range or dereference nil, whatever the expression bytes are
+//@ func (tree *ObjectTree) findRelative(scopeIndex uint32, expr []byte) (r uint32)
+//@   property C13
+//@   requires wfTree(tree) && live(tree, scopeIndex)
+//@   ensures r == InvalidIndex || live(tree, r)
+//@   loop 1 (segIndex < exprLen) invariant 0 <= segIndex && live(tree, scopeIndex) && exprLen == len(expr)
+//@   loop 2 (segIndex < exprLen &&) invariant 0 <= segIndex && live(tree, scopeIndex) && exprLen == len(expr)
+//@   loop 3 (nextIndex != InvalidIndex) invariant (nextIndex == InvalidIndex || live(tree, nextIndex)) && live(tree, scopeIndex) && 0 <= segIndex && exprLen - segIndex >= 4 && segIndex < exprLen && exprLen == len(expr)
+//@   loop 4 (byteIndex < amlNameLen) invariant 0 <= byteIndex && byteIndex <= 4 && live(tree, nextIndex) && obj == ob(tree, nextIndex) && 0 <= segIndex && exprLen - segIndex >= 4 && segIndex < exprLen && exprLen == len(expr) && live(tree, scopeIndex)
+//@   at entry: inst scopeIndex
+
+//@ func (tree *ObjectTree) Find(scopeIndex uint32, expr []byte) (r uint32)
+//@   property C13
+//@   requires wfTree(tree) && (scopeIndex == InvalidIndex || live(tree, scopeIndex)) && live(tree, 0)
+//@   ensures r == InvalidIndex || live(tree, r)
+//@   ensures root: len(expr) == 1 && expr[0] == 92 && scopeIndex != InvalidIndex ==> r == 0
+//@   loop 1 (startIndex < exprLen) invariant 0 <= startIndex && live(tree, scopeIndex) && exprLen == len(expr)
+//@   loop 2 (nextScopeIndex != InvalidIndex) invariant (nextScopeIndex == InvalidIndex || live(tree, nextScopeIndex)) && exprLen == len(expr) && exprLen == 4
+//@   loop 3 (nextIndex != InvalidIndex) invariant (nextIndex == InvalidIndex || live(tree, nextIndex)) && live(tree, nextScopeIndex) && exprLen == len(expr) && exprLen == 4
+//@   loop 4 (byteIndex < amlNameLen) invariant 0 <= byteIndex && byteIndex <= 4 && live(tree, nextIndex) && obj == ob(tree, nextIndex) && live(tree, nextScopeIndex) && exprLen == len(expr) && exprLen == 4
